@@ -187,7 +187,7 @@ func allChecks() []*Check {
 				{Pkg: "client", Func: "VerifC04Step", Quick: map[string]int{"N": 2}, Thorough: map[string]int{"N": 3},
 					Asserts: []string{"add-model", "remove-model", "snapshot-model", "post-invariant", "one-critical-section", "monitor:all-accesses-under-lock", "empty-list-dropped"}},
 				{Pkg: "client", Func: "VerifC04History", Quick: map[string]int{"K": 5}, Thorough: map[string]int{"K": 7}, Asserts: []string{"history:each-live-handler-once-removed-never"}},
-				{Pkg: "client", Func: "VerifC04Dispatch", Quick: map[string]int{"N": 2}, Thorough: map[string]int{"N": 3},
+				{Pkg: "client", Func: "VerifC04Dispatch", OrderDep: true, Quick: map[string]int{"N": 2}, Thorough: map[string]int{"N": 3},
 					Asserts: []string{"each-once", "ran-exactly-the-registered-count", "late-registration-runs-next-time", "post-invariant"}},
 			},
 			Bounds:      map[string]string{"quick": "pre-state: any well-formed handler set over 2 distinct symbolic names (1-2 ASCII bytes) with 0..2 handlers each, built directly in the heap; one add (either name in any letter case, or a third name) / remove (any node) / snapshot; dispatch of an event in any letter case with self-removal, sibling removal and registration from inside a handler; plus concrete-shape histories of 5 operations (add under either of two names in either case / remove any earlier handler / dispatch) from the empty set against a list model", "thorough": "0..3 handlers per name; histories of 7 operations"},
